@@ -35,7 +35,7 @@ FAULT_OPS = ("alloc", "clock_tick", "clock_jump", "clock_freeze")
 # (probes "epoch_address_reused" / "ephemeral_id" only fire if the code under test calls id() on temporaries,
 #  which the repaired tree no longer does; they are kept for mutants and not required to be non-zero)
 PROBES = ["refinement_rounds_ge_2", "timeout_fired", "clock_went_backwards",
-          "symmetric_family", "same_hypergraph_object_reanalysed", "network_edited_between_analyses", "wl_checked", "twin_compared", "neighbour_compared", "flagged_partial_answer", "slow_clock_default_timeout"]
+          "symmetric_family", "same_hypergraph_object_reanalysed", "network_edited_between_analyses", "analyser_object_reused", "depth_limited_call", "wl_checked", "twin_compared", "neighbour_compared", "flagged_partial_answer", "slow_clock_default_timeout"]
 REAL = ["synkit.CRN.Topo.wl_canon.WLCanonicalizer / wl_canonical (sound checks only: isomorphic to view, colour classes coarsen true orbits, estimate >= true count, twin histograms equal)",
         "synkit.CRN.Topo.canon.CRNCanonicalizer (_init_part/_sig/_refine/_label/_search/_canon, summary/graph/orbits)",
         "synkit.CRN.Topo.automorphism.CRNAutomorphism.summary / has_nontrivial_automorphism / detect_automorphisms",
@@ -215,12 +215,37 @@ def generate(seed: int, tier: str = "quick") -> Dict[str, Any]:
             ops.append({"op": "wl", "s": s(), "which": which, "flags": list(flags), "api": rng.choice(["class", "func"])})
         elif rng.random() < 0.6:
             ops.append({"op": "canon", "s": s(), "which": which, "timeout": tmo, "flags": list(flags),
-                        "api": rng.choice(["summary", "summary", "graph", "canonical"])})
+                        "api": rng.choice(["summary", "summary", "graph", "canonical"]),
+                        "max_depth": rng.choice([None, None, None, None, 0, 1, 2, 3]), "reuse": rng.random() < 0.6})
         else:
             ops.append({"op": "aut", "s": s(), "which": which, "flags": list(flags), "timeout": (tmo if rng.random() < 0.7 else "default"),
                         "max_count": rng.choice([100, 1000, 5000, 3]),
-                        "api": rng.choice(["summary", "summary", "detect", "nontrivial"])})
-    return {"cfg": cfg, "ops": ops}
+                        "api": rng.choice(["summary", "summary", "detect", "nontrivial", "iter"]), "reuse": rng.random() < 0.6})
+    # follow-ups: the same analyser object serves a limited call and then an unlimited one (and vice versa)
+    out_ops: List[Dict[str, Any]] = []
+    for o in ops:
+        out_ops.append(o)
+        if o["op"] in ("canon", "aut") and rng.random() < 0.3:
+            f = copy.deepcopy(o)
+            f["s"] = s()
+            f["reuse"] = True
+            o["reuse"] = True
+            limited = (o.get("timeout") not in (None, 1e9)) or o.get("max_depth") is not None
+            if limited:
+                f["timeout"] = None
+                f["max_depth"] = None
+            else:
+                f["timeout"] = rng.choice([0, 0.5, 5]) if clocky else None
+                if f["op"] == "canon":
+                    f["max_depth"] = rng.choice([0, 1, 2])
+            if f["op"] == "aut":
+                f["api"] = rng.choice(["summary", "iter", "nontrivial"])
+            else:
+                f["api"] = rng.choice(["summary", "graph"])
+            if clocky and rng.random() < 0.5:
+                out_ops.append({"op": "clock_jump", "s": s(), "after": 0, "dt": rng.choice([3.0, 60.0, 1e6])})
+            out_ops.append(f)
+    return {"cfg": cfg, "ops": out_ops}
 
 
 # ---------------------------------------------------------------------------
@@ -305,6 +330,18 @@ def _run(case: Dict[str, Any], sim: Sim, world: World, clock: SimClock) -> None:
     cond_base = ""
     truth_cache: Dict[Any, Any] = {}
     canon_seen: Dict[Any, Any] = {}   # (which, view flags, version) -> canon signature (unflagged answers only)
+
+    analysers: Dict[Any, Any] = {}
+
+    def analyser(kind: str, which: str, reuse: bool, ctor):
+        """Long-lived analyser objects: the same instance serves several calls with different limits."""
+        key = (kind, which, bip, sto, iid, version[0], bool(cfg.get("persistent_objects")))
+        if reuse and cfg.get("persistent_objects") and key in analysers:
+            sim.probe("analyser_object_reused")
+            return analysers[key]
+        obj = ctor()
+        analysers[key] = obj
+        return obj
 
     def get_obj(which: str) -> CRNHyperGraph:
         if not cfg.get("persistent_objects"):
@@ -432,26 +469,31 @@ def _run(case: Dict[str, Any], sim: Sim, world: World, clock: SimClock) -> None:
             continue
         if k == "canon":
             tmo = op["timeout"]
+            md = op.get("max_depth")
+            unlimited = tmo is None and md is None
             site = "CRNCanonicalizer." + op["api"]
             flagged = False
             s: Optional[Dict[str, Any]] = None
-            c = CRNCanonicalizer(H, include_rule=bip, include_stoich=sto, integer_ids=iid)
+            c = analyser("canon", which, bool(op.get("reuse")),
+                         lambda: CRNCanonicalizer(H, include_rule=bip, include_stoich=sto, integer_ids=iid))
             try:
                 if op["api"] == "canonical":
-                    c = canonical(H, include_rule=bip, include_stoich=sto, integer_ids=iid, timeout_sec=tmo)
-                    s = c.summary(timeout_sec=tmo)
+                    c = canonical(H, include_rule=bip, include_stoich=sto, integer_ids=iid, timeout_sec=tmo, max_depth=md)
+                    s = c.summary(timeout_sec=tmo, max_depth=md)
                 else:
-                    if op["api"] == "graph" and tmo is None:
+                    if op["api"] == "graph" and unlimited:
                         Gc_only = c.graph()
                         s = c.summary()
                         if canon_sig(Gc_only, bip, sto) != canon_sig(s["canon_graph"], bip, sto):
                             raise Violation(PROP, site, "graph_differs_from_summary", cond_base, {})
                     else:
-                        s = c.summary(timeout_sec=tmo)
+                        s = c.summary(timeout_sec=tmo, max_depth=md)
             except RuntimeError as ex:
-                if tmo is None:
+                if unlimited:
                     raise Violation(PROP, site, "unexpected_exception", cond_base, {"exc": repr(ex)})
                 flagged = True
+            if md is not None:
+                sim.probe("depth_limited_call")
             elapsed = clock.window_elapsed()
             Gv = c.G
             check_view(which, H, Gv)
@@ -512,11 +554,13 @@ def _run(case: Dict[str, Any], sim: Sim, world: World, clock: SimClock) -> None:
                     if not refines(s["orbits"], T["orbits"]):
                         raise Violation(PROP, site, "orbits_wrong", cond_base + "; flagged", {"got": sorted(sorted(map(str, o)) for o in s["orbits"])})
             if flagged:
-                sim.probe("timeout_fired")
-                if tmo is None:
-                    raise Violation(PROP, site, "flagged_without_cause", cond_base, {"timeout": None})
-                if elapsed is not None and elapsed <= tmo:
-                    raise Violation(PROP, site, "flagged_without_cause", cond_base, {"timeout": tmo, "max_elapsed_seen": elapsed})
+                if unlimited:
+                    raise Violation(PROP, site, "flagged_without_cause", cond_base + ("; analyser object reused" if op.get("reuse") else ""),
+                                    {"timeout": None, "max_depth": None})
+                if md is None:
+                    sim.probe("timeout_fired")
+                    if elapsed is not None and elapsed <= tmo:
+                        raise Violation(PROP, site, "flagged_without_cause", cond_base, {"timeout": tmo, "max_elapsed_seen": elapsed})
             sim.state(("canon", bip, sto, which, flagged, T["count"] if not T["capped"] else -1, Gv.number_of_nodes(), Gv.number_of_edges()))
             sim.event("canon", {"which": which, "api": op["api"], "flagged": flagged,
                                 "count": (s["automorphism_count"] if s else None), "sig": (canon_sig(s["canon_graph"], bip, sto) if (s and not flagged) else None)})
@@ -524,9 +568,34 @@ def _run(case: Dict[str, Any], sim: Sim, world: World, clock: SimClock) -> None:
             tmo = op["timeout"]
             mc = op["max_count"]
             api = op["api"]
-            site = {"summary": "CRNAutomorphism.summary", "detect": "detect_automorphisms", "nontrivial": "CRNAutomorphism.has_nontrivial_automorphism"}[api]
-            a = CRNAutomorphism(H, include_rule=bip, include_stoich=sto, integer_ids=iid)
+            site = {"summary": "CRNAutomorphism.summary", "detect": "detect_automorphisms", "iter": "CRNAutomorphism.iter",
+                    "nontrivial": "CRNAutomorphism.has_nontrivial_automorphism"}[api]
+            a = analyser("aut", which, bool(op.get("reuse")),
+                         lambda: CRNAutomorphism(H, include_rule=bip, include_stoich=sto, integer_ids=iid))
             eff_tmo: Optional[float]
+            if api == "iter":
+                it_tmo = None if tmo == "default" else tmo
+                maps_ = list(a.iter(max_count=mc, timeout_sec=it_tmo))
+                elapsed = clock.window_elapsed()
+                Gv = a.G
+                check_view(which, H, Gv)
+                T = truth(which, Gv)
+                for m in maps_:
+                    if not gr.is_valid_map(T["g"], T["g"], m, mode="iso"):
+                        raise Violation(PROP, site, "returned_map_not_automorphism", cond_base, {"map": {str(x): str(y) for x, y in m.items()}})
+                if len({tuple(sorted((str(x), str(y)) for x, y in m.items())) for m in maps_}) != len(maps_):
+                    raise Violation(PROP, site, "automorphism_count_wrong", cond_base + "; duplicate maps", {"n": len(maps_)})
+                if not T["capped"]:
+                    want_n = min(T["count"], mc)
+                    if len(maps_) > want_n:
+                        raise Violation(PROP, site, "automorphism_count_wrong", cond_base, {"got": len(maps_), "true": T["count"], "max_count": mc})
+                    no_clock_cause = it_tmo is None or (elapsed is not None and elapsed <= it_tmo)
+                    if len(maps_) < want_n and no_clock_cause:
+                        raise Violation(PROP, site, "unflagged_partial_answer", cond_base + ("; analyser object reused" if op.get("reuse") else ""),
+                                        {"got": len(maps_), "true": T["count"], "max_count": mc, "timeout": it_tmo, "max_elapsed_seen": elapsed})
+                sim.state(("iter", bip, sto, len(maps_)))
+                sim.event("aut", {"which": which, "api": api, "n": len(maps_)})
+                continue
             if api == "summary":
                 if tmo == "default":
                     res = a.summary(max_count=mc)
